@@ -25,26 +25,39 @@ size_t strnlen(const char *s, size_t n) { size_t k = 0; while (k < n && s[k]) k+
 #endif
 int64_t ref_char_at(const char *s, int64_t i); bool ref_is_digit(int64_t c); bool ref_is_alpha(int64_t c); bool ref_is_alnum(int64_t c);
 bool ref_is_whitespace(int64_t c); bool ref_is_upper(int64_t c); bool ref_is_lower(int64_t c); int64_t ref_digit_value(int64_t c);
+bool ref_str_equals(const char *a, const char *b); bool ref_str_contains(const char *a, const char *b); int64_t ref_str_length(const char *a);
 int64_t ref_char_to_lower(int64_t c); int64_t ref_char_to_upper(int64_t c); int64_t ref_abs(int64_t a); int64_t ref_min(int64_t a, int64_t b); int64_t ref_max(int64_t a, int64_t b);
 #ifndef SL
 #define SL 3
 #endif
+static char in_tbuf[SL + 1];
 static ASTNode na, nb, ncall; static ASTNode *argv2[2]; static Environment env; static char in_sbuf[SL + 1];
 static uint8_t in_str[SL];   /* copy of the string bytes that shows up in the trace */
 void harness(void) {
     ND(int64_t, in_a); ND(int64_t, in_b); ND_ARR(uint8_t, in_s, SL);
-    for (int i = 0; i < SL; i++) { ASSUME(in_s[i] != 0); in_str[i] = in_s[i]; in_sbuf[i] = (char)in_s[i]; }
+    for (int i = 0; i < SL; i++) {
+#if SIG == 3
+        ASSUME(in_s[i] != 0);
+#endif
+        in_str[i] = in_s[i]; in_sbuf[i] = (char)in_s[i]; }
     in_sbuf[SL] = 0;
 #if SIG == 1      /* (int) */
     na = (ASTNode){ .type = AST_NUMBER, .as.number = in_a };
 #elif SIG == 2    /* (int int) */
     na = (ASTNode){ .type = AST_NUMBER, .as.number = in_a }; nb = (ASTNode){ .type = AST_NUMBER, .as.number = in_b };
+#elif SIG == 4    /* (string string) -> bool, lengths 0..SL (a NUL may appear anywhere) */
+    ND_ARR(uint8_t, in_t, SL);
+    for (int i = 0; i < SL; i++) { in_tbuf[i] = (char)in_t[i]; }
+    in_tbuf[SL] = 0;
+    na = (ASTNode){ .type = AST_STRING, .as.string_val = in_sbuf }; nb = (ASTNode){ .type = AST_STRING, .as.string_val = in_tbuf };
+#elif SIG == 5    /* (string) -> int */
+    na = (ASTNode){ .type = AST_STRING, .as.string_val = in_sbuf };
 #else             /* (string int) */
     na = (ASTNode){ .type = AST_STRING, .as.string_val = in_sbuf }; nb = (ASTNode){ .type = AST_NUMBER, .as.number = in_b };
     ASSUME(in_b >= 0 && in_b < SL);     /* in range: out of range is an error on both sides with different conventions (message + 0 / void) */
 #endif
     argv2[0] = &na; argv2[1] = &nb;
-    ncall = (ASTNode){ .type = AST_CALL, .as.call = { .name = CALLNAME, .args = argv2, .arg_count = (SIG == 1 ? 1 : 2) } };
+    ncall = (ASTNode){ .type = AST_CALL, .as.call = { .name = CALLNAME, .args = argv2, .arg_count = ((SIG == 1 || SIG == 5) ? 1 : 2) } };
 #if ABSLIKE
     ASSUME(in_a != INT64_MIN);          /* -INT64_MIN is undefined in both implementations */
 #endif
@@ -55,6 +68,10 @@ void harness(void) {
   #else
     CHECK(r.type == VAL_INT && r.as.int_val == REF(in_a), "C03: the compile-time evaluator's builtin returns what the native helper returns");
   #endif
+#elif SIG == 4
+    CHECK(r.type == VAL_BOOL && r.as.bool_val == REF(in_sbuf, in_tbuf), "C03: the compile-time evaluator's builtin returns what the native helper returns");
+#elif SIG == 5
+    CHECK(r.type == VAL_INT && r.as.int_val == REF(in_sbuf), "C03: the compile-time evaluator's builtin returns what the native helper returns");
 #elif SIG == 2
     CHECK(r.type == VAL_INT && r.as.int_val == REF(in_a, in_b), "C03: the compile-time evaluator's builtin returns what the native helper returns");
 #else
